@@ -782,3 +782,155 @@ fn lit_num(n: &Num) -> Num {
         x => *x,
     }
 }
+
+// ------------------------------------------------------------------ document-guided paths
+
+impl PathGen {
+    /// a step that applies to at least one item of the frontier (with high probability)
+    fn guided_step(&self, rng: &mut Rng, cfg: &PathCfg, frontier: &[&Tree], root: &Tree, depth: usize) -> Step {
+        if frontier.is_empty() || rng.chance(1, 10) {
+            return self.step(rng, cfg, true, depth);
+        }
+        let item = *rng.pick(frontier);
+        match item {
+            Tree::Obj(v) if !v.is_empty() => match rng.below(8) {
+                0 => Step::DotWild,
+                1 if cfg.filters && depth < 2 => Step::Filter(Box::new(self.guided_expr(rng, cfg, item, root, false, depth + 1, 1))),
+                _ => {
+                    let st = match rng.below(3) {
+                        0 => NameStyle::Dot,
+                        1 => NameStyle::Colon,
+                        _ => NameStyle::Bracket,
+                    };
+                    Step::Name(v[rng.below(v.len())].0.clone(), st)
+                }
+            },
+            Tree::Arr(v) if !v.is_empty() => {
+                let n = v.len() as i32;
+                match rng.below(8) {
+                    0 | 1 => Step::BracketWild,
+                    2 if cfg.filters && depth < 2 => Step::Filter(Box::new(self.guided_expr(rng, cfg, item, root, false, depth + 1, 1))),
+                    3 => Step::Indices(vec![AIdx::Range(Idx::I(rng.below(v.len()) as i32), Idx::Last(-(rng.below(2) as i32)))]),
+                    4 => Step::Indices(vec![AIdx::One(Idx::Last(-(rng.below(v.len()) as i32)))]),
+                    5 => {
+                        let k = rng.below(3) + 1;
+                        Step::Indices((0..k).map(|_| AIdx::One(Idx::I(rng.range(0, n as i64) as i32))).collect())
+                    }
+                    6 => Step::Indices(vec![AIdx::Range(Idx::I(rng.range(-1, n as i64) as i32), Idx::I(rng.range(0, n as i64 + 1) as i32)), AIdx::One(Idx::I(0))]),
+                    _ => Step::Indices(vec![AIdx::One(Idx::I(rng.below(v.len()) as i32))]),
+                }
+            }
+            _ => match rng.below(4) {
+                0 => Step::BracketWild,
+                1 | 2 if cfg.filters && depth < 2 => Step::Filter(Box::new(self.guided_expr(rng, cfg, item, root, false, depth + 1, 1))),
+                _ => self.step(rng, cfg, true, depth),
+            },
+        }
+    }
+
+    fn lit_near(&self, rng: &mut Rng, t: &Tree) -> Lit {
+        // a literal equal or close to a scalar of the document (same kind, so the comparison is specified)
+        match t {
+            Tree::Null => Lit::Null,
+            Tree::Bool(b) => Lit::Bool(if rng.chance(3, 4) { *b } else { !*b }),
+            Tree::Num(n) if n.is_finite() => {
+                let m = match rng.below(4) {
+                    0 | 1 => *n,
+                    2 => match n {
+                        Num::U(v) => Num::U(v.wrapping_add(1)),
+                        Num::I(v) => Num::I(v.wrapping_sub(1)),
+                        Num::F(b) => Num::f(f64::from_bits(*b) + 0.5),
+                    },
+                    _ => match n {
+                        Num::U(v) if *v < (1 << 53) => Num::f(*v as f64),
+                        Num::I(v) if v.unsigned_abs() < (1 << 53) => Num::f(*v as f64),
+                        x => *x,
+                    },
+                };
+                Lit::Num(lit_num(&if m.is_finite() { m } else { *n }))
+            }
+            Tree::Str(s) => {
+                if rng.chance(3, 4) {
+                    Lit::Str(s.clone())
+                } else {
+                    Lit::Str(format!("{}a", s))
+                }
+            }
+            _ => self.lit(rng),
+        }
+    }
+
+    /// expression evaluated with `@` bound to `item`, built from values actually reachable
+    pub fn guided_expr(&self, rng: &mut Rng, cfg: &PathCfg, item: &Tree, root: &Tree, predicate: bool, depth: usize, budget: usize) -> Expr {
+        if budget > 0 && rng.chance(1, 4) {
+            let l = self.guided_expr(rng, cfg, item, root, predicate, depth, budget - 1);
+            let r = self.guided_expr(rng, cfg, item, root, predicate, depth, budget - 1);
+            return if rng.bool() { Expr::And(Box::new(l), Box::new(r)) } else { Expr::Or(Box::new(l), Box::new(r)) };
+        }
+        let from_root = predicate || rng.chance(1, 8);
+        let start = if from_root { root } else { item };
+        // walk a few guided steps (no filters) to reach scalars
+        let c = PathCfg { max_steps: 3, filters: false, big_indices: false };
+        let mut steps: Vec<Step> = Vec::new();
+        let mut cur: Vec<&Tree> = vec![start];
+        for _ in 0..rng.below(3) {
+            if cur.iter().all(|t| t.is_scalar()) {
+                break;
+            }
+            let s = self.guided_step(rng, &c, &cur, root, 3);
+            if let Ok(next) = crate::refpath::eval_steps(std::slice::from_ref(&s), cur[0], root) {
+                let mut all: Vec<&Tree> = Vec::new();
+                for it in &cur {
+                    if let Ok(v) = crate::refpath::eval_steps(std::slice::from_ref(&s), it, root) {
+                        all.extend(v);
+                    }
+                }
+                let _ = next;
+                cur = all;
+            }
+            steps.push(s);
+        }
+        if rng.chance(1, 6) {
+            return Expr::Exists(from_root, steps);
+        }
+        let scalars: Vec<&Tree> = cur.iter().filter(|t| t.is_scalar()).cloned().collect();
+        let lit = if scalars.is_empty() {
+            self.lit(rng)
+        } else {
+            let pick = rng_pick_ref(rng, &scalars);
+            self.lit_near(rng, pick)
+        };
+        let cmp = *rng.pick(&[Cmp::Eq, Cmp::Eq, Cmp::Ne, Cmp::Lt, Cmp::Le, Cmp::Gt, Cmp::Ge]);
+        let p = Operand::Path(from_root, steps);
+        if rng.chance(1, 5) {
+            Expr::Cmp(cmp, Operand::Lit(lit), p)
+        } else {
+            Expr::Cmp(cmp, p, Operand::Lit(lit))
+        }
+    }
+
+    pub fn guided_path(&self, rng: &mut Rng, cfg: &PathCfg, root: &Tree) -> JPath {
+        if cfg.filters && rng.chance(1, 6) {
+            return JPath::Predicate(self.guided_expr(rng, cfg, root, root, true, 1, 2));
+        }
+        let n = rng.below(cfg.max_steps + 1);
+        let mut steps: Vec<Step> = Vec::new();
+        let mut cur: Vec<&Tree> = vec![root];
+        for _ in 0..n {
+            let s = self.guided_step(rng, cfg, &cur, root, 0);
+            let mut all: Vec<&Tree> = Vec::new();
+            for it in &cur {
+                if let Ok(v) = crate::refpath::eval_steps(std::slice::from_ref(&s), it, root) {
+                    all.extend(v);
+                }
+            }
+            cur = all;
+            steps.push(s);
+        }
+        JPath::Steps(steps)
+    }
+}
+
+fn rng_pick_ref<'a>(rng: &mut Rng, v: &[&'a Tree]) -> &'a Tree {
+    v[rng.below(v.len())]
+}
